@@ -138,12 +138,13 @@ def slot_access_rule(facts, rep, R1, wr, ww):
                         return None
                     off = ({k: off[0].get(k, 0) + a[0].get(k, 0) for k in set(off[0]) | set(a[0])}, off[1] + a[1])
                 if en is not None:
-                    ks = [x[1] for x in walk(en) if x[0] == "const" and isinstance(x[1], int) and not isinstance(x[1], bool) and x[1] > 8]
+                    from binser import const_fold
                     e_ = strip_refs(en)
-                    if e_[0] == "const":
-                        ks = [e_[1]]
-                    elif not (e_[0] == "call" and e_[1].rsplit("::", 1)[-1] == "min"):
-                        ks = ks if (e_[0] == "call" and e_[1].rsplit("::", 1)[-1] == "min") else []
+                    ks = []
+                    if const_fold(e_) is not None:
+                        ks = [const_fold(e_)]
+                    elif e_[0] == "call" and e_[1].rsplit("::", 1)[-1] == "min":
+                        ks = [const_fold(a_) for a_ in e_[2] if const_fold(a_) is not None]
                     for k_ in ks:
                         # the cap is expressed in the coordinates of the view being sliced
                         capk = k_ + 0
@@ -188,6 +189,24 @@ def slot_access_rule(facts, rep, R1, wr, ww):
             rep.violation(R1, wr.name, "slot-cap:%d" % cap, "the writer views the set through a range capped at index %d: slot %d .. 256 (group 7, bit 31) are never serialised" % (cap, cap), where)
         else:
             rep.ok(R1, {"slot_access": "set[32*group + bit + 1]", "line": line})
+    # any sub-slice view of a set, however its elements are then reached (chunks, zip, iterators): a constant cap on its
+    # end below 257 cuts off slot 256
+    for bb, t in wr.calls():
+        nm = callee_names(t)[1] or ""
+        if "ops::Index" in nm and nm.endswith("::index") and len(t["args"]) == 2:
+            idx_t = strip_refs(wr.term_of_operand(t["args"][1]))
+            if idx_t[0] != "agg" or not str(idx_t[2] or "").startswith("std::ops::Range"):
+                continue
+            whole = ("call", nm, (wr.term_of_operand(t["args"][0]), wr.term_of_operand(t["args"][1])), bb, nm)
+            pl = peel(whole)
+            if pl is None:
+                continue
+            off, cap, root = pl
+            from_sets = any(x[0] == "field" and x[2] == "sets" for x in walk(root))
+            if from_sets and cap is not None and cap < 257 and not off[0] and off[1] >= 0:
+                key = "slot-cap:%d" % cap
+                if not any(v["key"].endswith(key) for v in rep.violations):
+                    rep.violation(R1, wr.name, key, "the writer views the set through a range capped at index %d: slot %d .. 256 (group 7, bit 31) are never serialised" % (cap, cap), "%s:%s" % (wr.file, t["line"]))
     return len([f for f in found if sorted(f[0]) == [(8, 32), (32, 1)]])
 
 
